@@ -151,6 +151,15 @@ def handleSim (s : DState) (toks : List String) : Option Out :=
       | .ok v => some (s, ["MS " ++ showScore v])
       | _ => some (die s)
     | _, _ => none
+  | ["matsimq", cb, r, c, ks] =>
+    -- a matrix of tens of thousands of cells in several rows: only the combined score
+    match parseCombiner cb, r.toNat?, c.toNat?, parseIds ks with
+    | some cb, some r, some c, some ks =>
+      let m : Matrix Float32 := { rows := r, cols := c, data := ks.map fun k => Float32.ofNat k / 64 }
+      match Combine.calculate cb m with
+      | .ok v => some (s, ["MS " ++ showScore v])
+      | _ => some (die s)
+    | _, _, _, _ => none
   | ["matsim", cb, r, c, ks] =>
     match parseCombiner cb, r.toNat?, c.toNat?, parseIds ks with
     | some cb, some r, some c, some ks =>
